@@ -23,18 +23,30 @@ pub trait Visitor {
 }
 
 /// Every component satisfies the grammar its wrapper type promises (the `new_unchecked` constructors and
-/// Rio's `Trusted` carry `debug_assert!`s: a component outside the grammar is not a well-formed term and
-/// would only produce a bogus panic), datatypes are absolute, and no untagged literal has datatype
-/// `rdf:langString` (the `WF` guard of the theorems).
-pub fn well_formed(t: &T) -> bool {
+/// Rio's `Trusted` carry `debug_assert!`s: a component outside the grammar is not a term at all and would only
+/// produce a bogus panic) and datatypes are absolute.
+pub fn grammar_ok(t: &T) -> bool {
     match t {
         T::Iri(s) => IriRef::new(s.as_str()).is_ok(),
         T::Bnode(s) => BnodeId::new(s.as_str()).is_ok(),
         T::Var(s) => VarName::new(s.as_str()).is_ok(),
-        T::Lit(_, d) => sophia_iri::Iri::new(d.as_str()).is_ok() && d != RDF_LANGSTRING,
+        T::Lit(_, d) => sophia_iri::Iri::new(d.as_str()).is_ok(),
         T::Lang(_, tag) => LanguageTag::new(tag.as_str()).is_ok(),
-        T::Triple(b) => b.iter().all(well_formed),
+        T::Triple(b) => b.iter().all(grammar_ok),
     }
+}
+
+/// the `WF` guard of the theorems (RDF 1.1): no untagged literal has datatype `rdf:langString`
+pub fn rdf_wf(t: &T) -> bool {
+    match t {
+        T::Lit(_, d) => d != RDF_LANGSTRING,
+        T::Triple(b) => b.iter().all(rdf_wf),
+        _ => true,
+    }
+}
+
+pub fn well_formed(t: &T) -> bool {
+    grammar_ok(t) && rdf_wf(t)
 }
 
 /// strict RDF-star shape (what `rio_api::model::Term` can hold)
